@@ -164,6 +164,7 @@ type Obligation struct {
 	Detail string
 	Ghost  string
 	x      *Exec
+	NoRetry bool
 }
 
 type Exec struct {
